@@ -1,2 +1,123 @@
-/-! placeholder driver (property C03 not built yet) -/
-def main : IO Unit := IO.println "bad-op"
+import LlgoVerif.Util
+import LlgoVerif.Model.Slice
+import LlgoVerif.Model.BoundsCall
+import LlgoVerif.Lemmas.Bounds
+/-! Line-protocol driver for C03 (bound operands ∘ run-time checks).  One request per line, one answer per line; the
+    requests are produced by `harness/irgen/bndgen.py` `model_request` for the very operand tuples fed to the
+    llgo-compiled evaluator, and the answers use the evaluator's output vocabulary:
+
+    `cfg C N` (repairs live in the tree: NewChan size test, nil test before slicing an array pointer) |
+    `ns3 nil esz cap  s w bits  s w bits  s w bits` (x[i:j:k]: each operand as signedness, width, bit pattern) |
+    `hdr nil len cap` (p[:]) | `ss len  s w bits  s w bits` | `mk esz  s w bits  s w bits` | `ch esz  s w bits` |
+    `mm s w bits` | `us s w bits` | `ut s w bits` | `sa len n` | `nl p` | `ix isstr len s w bits`.
+
+    Answers: `P` (panic) | `R len cap e0 e1 e2` | `T len first last` | `R len cap 0` (make) | `C cap` | `M 1` | `A v` | `U` | `E v`.
+    An operand is converted exactly as the regenerated obligations say the compiler does (`BoundsCall.fit`), then the
+    run-time routine of the model runs on the `int` reading of the result. -/
+open LlgoVerif LlgoVerif.Util LlgoVerif.Slice LlgoVerif.BoundsCall
+
+def storeN : Int := 70016
+def baseAddr : Nat := 4096
+
+/-- `fit s a` for a bit pattern of width `w` (w ∈ {8,16,32,64}) read as the runtime's `int` -/
+def handed (s : Bool) (w bits : Nat) : Int :=
+  if w = 8 then (fit s (BitVec.ofNat 8 bits)).toInt
+  else if w = 16 then (fit s (BitVec.ofNat 16 bits)).toInt
+  else if w = 32 then (fit s (BitVec.ofNat 32 bits)).toInt
+  else (fit s (BitVec.ofNat 64 bits)).toInt
+
+def opnd (s w b : String) : Option Int :=
+  match s.toNat?, w.toNat?, b.toNat? with
+  | some s, some w, some b => if w = 8 ∨ w = 16 ∨ w = 32 ∨ w = 64 then some (handed (s = 1) w b) else none
+  | _, _, _ => none
+
+def elem (i : Int) : Int := 100 + i
+
+/-- what the evaluator prints for a slice result over the element store (element `k` holds `100 + k`) -/
+def showSlice (noelems : Bool) (off len cap : Int) : String :=
+  let sane := !noelems ∧ 0 ≤ len ∧ len ≤ cap ∧ cap ≤ storeN
+  let e0 := if sane ∧ len > 0 then elem off else -1
+  let e1 := if sane ∧ len > 0 then elem (off + len - 1) else -1
+  let e2 := if sane ∧ cap > 0 then elem (off + cap - 1) else -1
+  s!"R {len} {cap} {e0} {e1} {e2}"
+
+def showStr (len : Int) (first last : Int) : String :=
+  if 0 < len ∧ len ≤ storeN then s!"T {len} {first} {last}" else s!"T {len} -1 -1"
+
+def handle (cfg : BCfg) (line : String) : BCfg × String :=
+  match fields line with
+  | ["cfg", c, n] => ({ chanSizeFix := c = "1", nilArrayFix := n = "1" }, "ok")
+  | ["ns3", nilp, esz, cap, s1, w1, b1, s2, w2, b2, s3, w3, b3] =>
+    match esz.toNat?, cap.toNat?, opnd s1 w1 b1, opnd s2 w2 b2, opnd s3 w3 b3 with
+    | some esz, some cap, some i, some j, some k =>
+      let p := if nilp = "1" then 0 else baseAddr
+      match nilArrayCheck cfg p with
+      | .error _ => (cfg, "P")
+      | .ok () =>
+        match NewSlice3 p esz cap i j k with
+        | .error _ => (cfg, "P")
+        | .ok r => (cfg, showSlice (nilp = "1") (((r.data : Int) - p) / (esz : Int)) r.len r.cap)
+    | _, _, _, _, _ => (cfg, "bad-op")
+  | ["hdr", nilp, len, cap] =>
+    match len.toNat?, cap.toNat? with
+    | some len, some cap =>
+      match nilArrayCheck cfg (if nilp = "1" then 0 else baseAddr) with
+      | .error _ => (cfg, "P")
+      | .ok () => (cfg, showSlice (nilp = "1") 0 len cap)
+    | _, _ => (cfg, "bad-op")
+  | ["ss", len, s1, w1, b1, s2, w2, b2] =>
+    match len.toNat?, opnd s1 w1 b1, opnd s2 w2 b2 with
+    | some len, some i, some j =>
+      let base := (List.range len).map (· % 251)
+      match StringSlice base i j with
+      | .error _ => (cfg, "P")
+      | .ok r => (cfg, showStr r.length (r.headD 0) (r.getLastD 0))
+    | _, _, _ => (cfg, "bad-op")
+  | ["mk", esz, s1, w1, b1, s2, w2, b2] =>
+    match esz.toNat?, opnd s1 w1 b1, opnd s2 w2 b2 with
+    | some esz, some n, some m =>
+      match MakeSlice Mem.empty n m esz with
+      | .error _ => (cfg, "P")
+      | .ok (_, r) => (cfg, s!"R {r.len} {r.cap} 0")
+    | _, _, _ => (cfg, "bad-op")
+  | ["ch", esz, s1, w1, b1] =>
+    match esz.toNat?, opnd s1 w1 b1 with
+    | some esz, some n =>
+      match NewChan cfg esz n with
+      | .error _ => (cfg, "P")
+      | .ok r => (cfg, s!"C {r.cap}")
+    | _, _ => (cfg, "bad-op")
+  | ["mm", s1, w1, b1] =>
+    match opnd s1 w1 b1 with
+    | some _ => (cfg, "M 1")
+    | none => (cfg, "bad-op")
+  | ["us", s1, w1, b1] =>
+    match opnd s1 w1 b1 with
+    | some n => (cfg, showSlice false 0 n n)
+    | none => (cfg, "bad-op")
+  | ["ut", s1, w1, b1] =>
+    match opnd s1 w1 b1 with
+    | some n => (cfg, showStr n 0 ((n - 1) % 251))
+    | none => (cfg, "bad-op")
+  | ["sa", len, n, _] =>
+    match len.toNat?, n.toNat? with
+    | some len, some n =>
+      match sliceToArray len n baseAddr with
+      | .error _ => (cfg, "P")
+      | .ok _ => (cfg, if n = 0 then "A 0" else s!"A {elem 0 + elem 3}")
+    | _, _ => (cfg, "bad-op")
+  | ["nl", p] => (cfg, if p = "0" then "P" else "U")
+  | ["ix", isstr, len, s1, w1, b1] =>
+    match len.toNat?, s1.toNat?, w1.toNat?, b1.toNat? with
+    | some len, some s, some w, some b =>
+      -- the value of the index at its SOURCE type (`GoArith.val`), judged by `Bounds.idxSpec`
+      let v : Int :=
+        if w = 8 then GoArith.val (s = 1) (BitVec.ofNat 8 b) else if w = 16 then GoArith.val (s = 1) (BitVec.ofNat 16 b)
+        else if w = 32 then GoArith.val (s = 1) (BitVec.ofNat 32 b) else GoArith.val (s = 1) (BitVec.ofNat 64 b)
+      match Bounds.idxSpec v (BitVec.ofNat 64 len) with
+      | .error _ => (cfg, "P")
+      | .ok c => (cfg, if isstr = "1" then s!"E {c.toNat % 251}" else s!"E {elem c.toInt}")
+    | _, _, _, _ => (cfg, "bad-op")
+  | _ => (cfg, "bad-op")
+
+def main : IO Unit := lineLoopSt BCfg.current handle
